@@ -81,13 +81,13 @@ structure InvS (s : Sys) : Prop where
   core : InvQ s.sh (pending s) s.log
   wa : ∀ t ∈ s.threads, WA t
 
-theorem pending_init (clr : Bool) (capacity nthreads : Nat) : pending (Sys.initCfg clr capacity nthreads) = [] := by
+theorem pending_init (clr : Cfg) (capacity nthreads : Nat) : pending (Sys.initCfg clr capacity nthreads) = [] := by
   unfold pending Sys.initCfg
   induction nthreads with
   | zero => rfl
   | succ n ih => simp [List.replicate_succ] at ih ⊢
 
-theorem invS_init (clr : Bool) (capacity nthreads : Nat) : InvS (Sys.initCfg clr capacity nthreads) := by
+theorem invS_init (clr : Cfg) (capacity nthreads : Nat) : InvS (Sys.initCfg clr capacity nthreads) := by
   refine ⟨?_, ?_⟩
   · rw [pending_init]
     refine ⟨?_, ?_, ?_, ?_, ?_, ?_⟩ <;> simp [Sys.initCfg, Shared.newCfg]
